@@ -14,6 +14,7 @@ import (
 
 	"github.com/tetratelabs/wazero"
 	"github.com/tetratelabs/wazero/api"
+	"github.com/tetratelabs/wazero/experimental"
 
 	"verifharness/sim"
 	"verifharness/tape"
@@ -62,7 +63,8 @@ func (c09) Describe() sim.Description {
 func modA(k int32) []byte {
 	m := &wasmb.Module{}
 	i32 := []wasmb.ValType{wasmb.I32}
-	inc := m.AddFunc(i32, i32, nil, (&wasmb.Code{}).LocalGet(0).I32Const(k).I32Add().B, "inc")
+	// inc(x) = x + k + mem[300] (zero, as long as the memory is what the module made it)
+	inc := m.AddFunc(i32, i32, nil, (&wasmb.Code{}).LocalGet(0).I32Const(k).I32Add().I32Const(300).I32Load(0).I32Add().B, "inc")
 	m.AddFunc(nil, []wasmb.ValType{wasmb.FuncRef}, nil, (&wasmb.Code{}).RefFunc(inc).B, "getref")
 	ti := m.AddType(i32, i32)
 	m.AddFunc([]wasmb.ValType{wasmb.I32, wasmb.I32}, i32, nil, (&wasmb.Code{}).LocalGet(1).LocalGet(0).CallIndirect(ti, 0).B, "callslot")
@@ -180,6 +182,8 @@ type runner struct {
 	twin            *side
 	curA            int // index of the open A registered as "a" (-1 none)
 	everA           bool
+	poison          bool // custom allocator whose Free poisons the memory
+	freed           int  // buffers freed so far (only the real side ever closes anything mid-run)
 	followUp        []int
 	leftover        map[int]int32 // table slot -> multiplier of the function a FAILED importer left there
 	forceImporter   bool
@@ -241,6 +245,45 @@ func drainFinalizers(cycles int) {
 	}
 }
 
+// poisonMem: a custom allocator's memory whose Free overwrites the buffer (an allocator that unmaps on
+// Free would fault instead): code that reads it afterwards sees 0xEE bytes.
+type poisonMem struct {
+	buf   []byte
+	freed *int
+}
+
+func (m *poisonMem) Reallocate(size uint64) []byte {
+	if uint64(cap(m.buf)) < size {
+		nb := make([]byte, size, size+65536)
+		copy(nb, m.buf)
+		m.buf = nb
+	}
+	m.buf = m.buf[:size]
+	return m.buf
+}
+
+func (m *poisonMem) Free() {
+	full := m.buf[:cap(m.buf)]
+	for i := range full {
+		full[i] = 0xEE
+	}
+	*m.freed++
+}
+
+// poisonDiff: both outcomes are single i32 results and differ by one to three reads of a poisoned word
+// (0xEEEEEEEE each): the signature of code that read the freed custom-allocator memory.
+func poisonDiff(got, want string) bool {
+	var g, w uint32
+	if n, _ := fmt.Sscanf(got, "[%d]", &g); n != 1 {
+		return false
+	}
+	if n, _ := fmt.Sscanf(want, "[%d]", &w); n != 1 {
+		return false
+	}
+	d := g - w
+	return d == 0xEEEEEEEE || d == 2*0xEEEEEEEE&0xFFFFFFFF || d == 3*0xEEEEEEEE&0xFFFFFFFF
+}
+
 func (c09) Run(t *tape.Tape, cfg sim.Config) (res sim.Result) {
 	old := debug.SetGCPercent(-1)
 	defer debug.SetGCPercent(old)
@@ -249,6 +292,14 @@ func (c09) Run(t *tape.Tape, cfg sim.Config) (res sim.Result) {
 		return r.dangling()
 	}
 	shared := cfg.Class == "shared-cache"
+	if t.Chance(1, 3) {
+		// memories come from a custom allocator whose Free poisons the buffer (both runtimes alike)
+		r.poison = true
+		r.ctx = experimental.WithMemoryAllocator(r.ctx, experimental.MemoryAllocatorFunc(func(cap, max uint64) experimental.LinearMemory {
+			return &poisonMem{freed: &r.freed}
+		}))
+		res.Stat("probe.poisoning_allocator", 1)
+	}
 	r.real = r.newSide(shared, false)
 	r.twin = r.newSide(shared, true)
 	nops := t.Range(8, 30)
@@ -369,6 +420,12 @@ func (r *runner) compareCall(what string, i int, fn string, args ...uint64) {
 				return
 			}
 		}
+	}
+	if got != want && r.poison && r.freed > 0 && poisonDiff(got, want) {
+		// recorded known finding: the definer was closed, which handed its custom-allocator memory back
+		// although importers of its FUNCTIONS can still run code that uses it
+		r.res.Known = append(r.res.Known, "allocator-memory-freed-while-function-importers-live")
+		return
 	}
 	if got != want && !strings.HasPrefix(got, "error: ") {
 		r.res.Fail("behaviour-changed", "%s returned %s; the twin runtime in which nothing was closed or collected returned %s", what, got, want)
@@ -647,7 +704,9 @@ func (r *runner) finishSlow() {
 		s.pausedInst = -1
 	}
 	r.log("finishSlow -> %s (twin %s)", outs[0], outs[1])
-	if outs[0] != outs[1] && !strings.HasPrefix(outs[0], "error: ") {
+	if outs[0] != outs[1] && r.poison && r.freed > 0 && poisonDiff(outs[0], outs[1]) {
+		r.res.Known = append(r.res.Known, "allocator-memory-freed-while-function-importers-live")
+	} else if outs[0] != outs[1] && !strings.HasPrefix(outs[0], "error: ") {
 		r.res.Fail("behaviour-changed", "the call that was in progress while others were closed/collected returned %s; the twin returned %s", outs[0], outs[1])
 	}
 	if strings.Contains(outs[0], "runtime error") {
